@@ -144,6 +144,9 @@ class World:
                     want = base64.b64encode(ref["results"][ds]).decode()
                     if r.error is not None or r.result != want:
                         out.append(("result_mismatch", "result differs from what was uploaded for that job and dataset", f"job {j} {ds!r}: {r!r} expected {want}"))
+                    r2 = ask(gapi.ResultRetrievalRequest(job_id=jid, dataset_id=ds))  # queries are read-only: asking again changes nothing
+                    if r2 is not None and (r2.error is not None or r2.result != want):
+                        out.append(("result_mismatch", "a repeated request for the same result is answered differently", f"job {j} {ds!r}: second answer {r2!r}"))
                 else:
                     if r.error is None or r.result is not None:
                         out.append(("missing_result_no_error", "result never uploaded for that job/dataset answered without error", f"job {j} {ds!r}: {r!r}"))
